@@ -1427,10 +1427,22 @@ func (vm *VM) run() (Addr, bool) {
 						}
 					}
 				default:
+					var length int
 					if kind == reflect.Pointer {
-						v = v.Elem()
+						// The length of the pointed array is known from the
+						// type, so a nil pointer is dereferenced only if the
+						// iteration value is used.
+						length = v.Type().Elem().Len()
+						if v.IsNil() {
+							if c != 0 && length > 0 {
+								panic(errNilPointer)
+							}
+						} else {
+							v = v.Elem()
+						}
+					} else {
+						length = v.Len()
 					}
-					length := v.Len()
 					for i := range length {
 						if b != 0 {
 							vm.setInt(b, int64(i))
